@@ -66,7 +66,9 @@ func writeEntry(t *Table, entry kv.Entry) {
 	}
 	// Set ending entry values
 	t.endKey = entry.Key()
-	t.endSeqNum = entry.SeqNum()
+	// Entries are ordered by key, not by sequence number, so the table's end
+	// sequence number is the largest one seen.
+	t.endSeqNum = max(t.endSeqNum, entry.SeqNum())
 
 	// Add to metadata
 	t.searchIndex.IndexOffset(t.size)
